@@ -144,6 +144,13 @@ theorem C13_binding_missing (ret : Bind.Ret) (outs : List Bind.Out)
     Bind.isOk (Bind.bindReturn ret outs) = false :=
   Bind.missing_mandatory_is_error ret outs h
 
+/-- the converse clause: when binding succeeds, every mandatory output is bound to a value that is not `NOTHING`
+    (any number of outputs, any returned object) -/
+theorem C13_binding_no_nothing (ret : Bind.Ret) (outs : List Bind.Out) (bs : List (Bind.Name × Bind.Val))
+    (h : Bind.bindReturn ret outs = .ok bs) (o : Bind.Out) (ho : o ∈ outs) (hm : o.mandatory = true) :
+    ∃ v, v ≠ .nothing ∧ (o.name, v) ∈ bs :=
+  Bind.no_nothing_on_success ret outs bs h o ho hm
+
 /-- regression of D9 (fixed by c0520c29): outputs `a`, `b` mandatory, the function returns `{"a": 1}` -/
 theorem C13_binding_regression_D9 :
     Bind.bindReturn (.dict [0]) [⟨0, true⟩, ⟨1, true⟩] = .error .missingMandatory := rfl
